@@ -817,7 +817,9 @@ Proof.
     + apply Hgen; auto.
       * intros r Hr. eapply rclosed_add_stream; eauto. reflexivity.
       * intros r Hr. cbn [refs] in Hr.
-        apply in_map_iff in Hr. destruct Hr as (s & <- & Hs). apply in_app_or in Hs. destruct Hs as [Hs|[<-|[]]].
+        apply in_map_iff in Hr. destruct Hr as (s & <- & Hs).
+        change (In s ((s0 :: ss') ++ [List.length (streams st1)])) in Hs.
+        apply in_app_or in Hs. destruct Hs as [Hs|[<-|[]]].
         -- apply Hss'. exact Hs.
         -- right. apply not_rclosed_fresh_stream. exact Hlen1.
   - (* OConv *)
@@ -857,7 +859,7 @@ Proof.
     match goal with |- kinv (mkState _ _ (upd _ _ ?H')) =>
       pose proof (root_facts_handle G st1 h Hh H' (pfacts_store_rel _ _ SR) Eh) as RF end.
     eapply kinv_same_step; eauto.
-    + intros r0. apply rclosed_store_rel. exact SR.
+    + intros r0 Hr0. apply (rclosed_store_rel _ _ _ SR). exact Hr0.
     + intros ro. apply RF; auto. unfold hrefs. simpl. rewrite Elv. exact Ht.
     + intros ro. apply RF; auto. unfold hrefs. simpl. rewrite Elv. exact Ht.
   - (* OClose *)
@@ -926,4 +928,30 @@ Proof.
       * intros ro. apply RF'.
       * simpl. eexists. split; [apply nth_error_upd_eq; apply nth_error_Some; congruence|]. reflexivity.
     + inversion H; subst; auto.
+Qed.
+
+(* ------------------------------------------------------------------ runs *)
+
+(* a run all of whose steps satisfy a precondition *)
+Fixpoint run_pre (pre : state -> op -> Prop) (fuel : nat) (G : state) (ops : list op) : Prop :=
+  match ops with
+  | [] => True
+  | o :: r => pre G o /\ run_pre pre fuel (snd (do_op fuel G o)) r
+  end.
+
+Lemma init_kinv : kinv init_state.
+Proof. intros [h|q|k] r H; simpl in H; [destruct h | destruct q | destruct k]; inversion H. Qed.
+
+Lemma run_kinv : forall fuel ops G bs G',
+  run fuel G ops = (bs, G') -> run_pre op_unclosed fuel G ops ->
+  wf G -> pcnt (st_store G) -> kinv G -> kinv G'.
+Proof.
+  intros fuel. induction ops as [|o r IH]; intros G bs G' H Hpre HW Hp HK; simpl in H.
+  - inversion H; subst; auto.
+  - destruct (do_op fuel G o) as [b G1] eqn:E1. destruct (run fuel G1 r) as [bs2 G2] eqn:E2.
+    inversion H; subst. simpl in Hpre. destruct Hpre as [Hpo Hpr]. rewrite E1 in Hpr. simpl in Hpr.
+    eapply IH; eauto.
+    + eapply do_op_wf; eauto.
+    + eapply do_op_pcnt; eauto.
+    + eapply do_op_kinv; eauto.
 Qed.
